@@ -30,7 +30,7 @@ func genCfg(r *Run, odd bool, i int) hCfg {
 	rng := r.Rng
 	c := hCfg{
 		ClientID: "client-" + fmt.Sprint(i%3), Secret: fmt.Sprintf("SECRET-marker-%d-%d", r.Seed%1000, i),
-		CallbackURI: pick(rng, []string{"https://app.example.com/callback", "https://app.example.com:443/oauth/callback", "http://app.example.com:8080/cb", "http://app.example.com:80/callback", "https://app.example.com:8443/callback"}),
+		CallbackURI: pick(rng, []string{"https://app.example.com/callback", "https://app.example.com/r%C3%A9ponse/cb", "https://app.example.com/oauth%20cb", "https://app.example.com:443/oauth/callback", "http://app.example.com:8080/cb", "http://app.example.com:80/callback", "https://app.example.com:8443/callback"}),
 		AuthURI:     pick(rng, []string{"https://idp.example.com/authorize", "https://idp.example.com/auth?tenant=acme", "https://idp.example.com/auth?a=b&c=d"}),
 		TokenPath:   pick(rng, []string{"/token", "/oauth/token", "/token?tenant=acme"}),
 		Scopes:      pick(rng, [][]string{{"openid"}, {"openid", "profile"}, {"email", "openid", "offline_access"}}),
